@@ -278,6 +278,13 @@ class TimeCachingAdapter(Adapter, NoBranchAdapter, ABC):
             else:
                 self._total_mem -= d[1].nbytes
 
+    def _finalize(self):
+        """Removes the data that was stored to disk."""
+        for _t, d in self.data:
+            if isinstance(d, str):
+                os.remove(d)
+        self.data.clear()
+
     @abstractmethod
     def _interpolate(self, time):
         """Interpolate for the given time"""
